@@ -103,3 +103,36 @@ package oci
 //@   loop 1 invariant [kept] reachableNodes != nil && (forall i int :: 0 <= i && i < len(algDirs) ==> algDirs[i] != nil) && (forall i int :: 0 <= i && i < len(digestEntries) ==> digestEntries[i] != nil)
 //@   call os.Remove requires [C09:remove-only-unreachable] !(blobDigest in reachableNodes)
 //@   call os.Remove requires [C09:known-algorithm-only] alg == "sha256" || alg == "sha512" || alg == "sha384"
+//@
+//@ pure roStoreRI(s *ReadOnlyStore) bool = s != nil && s.graph != nil && alive(s.graph) && graphRI(s.graph)
+//@ func (*ReadOnlyStore).Predecessors
+//@   requires [ri] roStoreRI(s)
+//@   ensures [C07:exact-members] forall i int :: 0 <= i && i < len(result0) ==> inPreds(s.graph, K(node), predKey(i)) && result0[i] == s.graph.nodes[predKey(i)]
+//@   ensures [C07:exact-once] forall i, j int :: 0 <= i && i < j && j < len(result0) ==> predKey(i) != predKey(j)
+//@   ensures [C07:exact-complete] forall k descriptor.Descriptor :: inPreds(s.graph, K(node), k) ==> (exists i int :: 0 <= i && i < len(result0) && predKey(i) == k)
+//@   ensures [C07:no-error] result1 == nil
+//@
+//@ func (*Store).Predecessors
+//@   requires [ri] storeRI(s)
+//@   ensures [C07:exact-members] forall i int :: 0 <= i && i < len(result0) ==> inPreds(s.graph, K(node), predKey(i)) && result0[i] == s.graph.nodes[predKey(i)]
+//@   ensures [C07:exact-once] forall i, j int :: 0 <= i && i < j && j < len(result0) ==> predKey(i) != predKey(j)
+//@   ensures [C07:exact-complete] forall k descriptor.Descriptor :: inPreds(s.graph, K(node), k) ==> (exists i int :: 0 <= i && i < len(result0) && predKey(i) == k)
+//@   ensures [C07:no-error] result1 == nil
+//@
+//@ func (*Storage).Push
+//@   trusted
+//@   modifies alloc, ghost.blobCount, ghost.matched, ghost.atEOF, ghost.digestOK, ghost.delivered, elems[byte]
+//@
+//@ func (*Store).tag
+//@   requires [ri] storeRI(s)
+//@   ensures [C06,C08:ri] storeRI(s) && s.tagResolver == old(s.tagResolver) && s.graph == old(s.graph) && s.storage == old(s.storage)
+//@   ensures [C06:tagged] forall r string :: (r in s.tagResolver.index) == (old(r in s.tagResolver.index) || r == reference || r == desc.Digest)
+//@   ensures [C06:tag-value] s.tagResolver.index[reference] == desc
+//@   ensures [C06:others-kept] forall r string :: r != reference && r != desc.Digest ==> s.tagResolver.index[r] == old(s.tagResolver.index[r])
+//@   modifies map[string]ocispec.Descriptor, map[digest.Digest]set.Set[string], map[string]unit, ghost.indexVersion, ocispec.Index.Manifests, elems[ocispec.Descriptor], new map[string]string, alloc
+//@
+//@ func (*Store).Push
+//@   requires [ri] storeRI(s)
+//@   ensures [C07:indexed-after-successful-push] result == nil ==> K(expected) in s.graph.nodes
+//@   ensures [C06:manifest-tagged-by-digest] result == nil && isManifestType(expected) ==> expected.Digest in s.tagResolver.index && s.tagResolver.index[expected.Digest] == expected
+//@   ensures [C06,C07:ri] storeRI(s) && s.graph == old(s.graph) && s.tagResolver == old(s.tagResolver)
